@@ -13,6 +13,7 @@ Environment (ghost, never read by the routing decisions except through "the send
 The text frames are read with the reader of `Model/Envelope.lean` and written with its writer.
 -/
 import SwimVerif.Model.Envelope
+import SwimVerif.Model.WsFrames
 
 namespace SwimVerif.Routing
 open SwimVerif.Envelope
@@ -61,6 +62,7 @@ structure St where
   dls : List Dl := []
   agents : List Ag := []
   ows : List Ow := []
+  asm : WsFrames.Asm := {}          -- the read buffer of `text_frame_stream`
   running : Bool := true
   counter : Nat := 0
   deriving Repr
@@ -104,6 +106,7 @@ inductive Op
   | attach (id : Nat) (node lane : Str)
   | attachOne (id : Nat) (node lane : Str)
   | input (frame : Str)
+  | frames (fs : List WsFrames.Frame)     -- raw web-socket frames from the peer (fragments, control frames, …)
   | send (s : Src) (m : Msg)
   | burst (srcs : List Src)
   | detach (s : Src)
@@ -228,6 +231,28 @@ def stepInput (st : St) (frame : Str) : St × List Ev :=
   | .env k node lane body =>
     if isRequest k then routeRequest st k node lane body else routeResponse st k node lane body
 
+/-- `BytesStr::try_from`: the reassembled payload as text -/
+def utf8 (bytes : List Nat) : Option Str :=
+  (String.fromUTF8? (ByteArray.mk (bytes.map UInt8.ofNat).toArray)).map String.toList
+
+/-- one raw frame from the peer through `text_frame_stream` into the incoming task -/
+def stepFrame (st : St) (f : WsFrames.Frame) : St × List Ev :=
+  if st.running then
+    match (WsFrames.step st.asm f).2 with
+    | .none => ({ st with asm := (WsFrames.step st.asm f).1 }, [])
+    | .text bytes =>
+      match utf8 bytes with
+      | some s => stepInput { st with asm := (WsFrames.step st.asm f).1 } s
+      | none => stopAll st [.peerClose "protocol", .task "done"]        -- `InputError::BadUtf8`
+    | .binary => stopAll st [.peerClose "protocol", .task "done"]       -- `InputError::BinaryFrame`
+    | .protoErr => stopAll st [.peerClose "protocol", .task "done"]     -- `InputError::WsError`
+    | .closed => stopAll st [.peerClose "normal", .task "done"]         -- `InputError::Closed` (close echoed)
+  else (st, [])
+
+def stepFrames : St → List WsFrames.Frame → St × List Ev
+  | st, [] => (st, [])
+  | st, f :: fs => ((stepFrames (stepFrame st f).1 fs).1, (stepFrame st f).2 ++ (stepFrames (stepFrame st f).1 fs).2)
+
 /-! ### the other operations -/
 
 def srcAlive (st : St) : Src → Bool
@@ -265,6 +290,7 @@ def step (st : St) (op : Op) : St × List Ev :=
     -- `AttachClient::OneWay`: only the outgoing half is registered (`RegisterOutgoing { kind: Client, .. }`)
     if st.running then ({ st with ows := st.ows ++ [⟨id, node, lane, true⟩] }, []) else (st, [])
   | .input frame => if st.running then stepInput st frame else (st, [])
+  | .frames fs => stepFrames st fs
   | .send s m =>
     if st.running && srcAlive st s && readerAccepts (regKind s) m then (st, [.peer (encode m)]) else (st, [])
   | .burst srcs =>
@@ -352,6 +378,11 @@ def parseOp (line : String) : Option Op :=
     let id ← id.toNat?; let n ← strOfHex n; let l ← strOfHex l
     pure (.attachOne id n l)
   | ["in", f] => (strOfHex f).map .input
+  | ["infrag", f, plan] => do
+    let bytes ← bytesOfHex f; let ts ← WsFrames.parsePlan plan
+    pure (.frames (WsFrames.planFrames true bytes ts))
+  | ["inbin", f] => (bytesOfHex f).map fun b => .frames [.binary b]
+  | ["inclose"] => some (.frames [.close])
   | ["send", s, k, n, l, b] => do
     let s ← Src.parse s; let k ← Kind.parse k; let n ← strOfHex n; let l ← strOfHex l; let b ← optHex b
     pure (.send s ⟨k, n, l, b.getD []⟩)
